@@ -52,6 +52,21 @@ def run(tier):
     vf.exec_and_validate(chk, binpath, "rand", "TV_Rand", cases, jvms=8, what="observation")
     # also in a plain release build (no overflow checks: integer arithmetic wraps instead of panicking)
     vf.exec_and_validate(chk, vf.build_harness("plain"), "rand", "TV_Rand", cases, jvms=8, what="observation (plain release build)")
+    # unit circle / sphere under the other float backends - also with libm AND mm switched on (libm has precedence)
+    probe = os.path.join(vf.HARNESS, "floatprobe")
+    bk = os.path.join(d, "unit_backends.ndjson")
+    with open(bk, "w") as fw:
+        for name, feats in (("libm", ["libm"]), ("libm+mm", ["libm", "mm"]), ("mm", ["mm"])):
+            vf._built.pop(("release", probe, tuple(feats)), None)
+            pb = vf.build_harness("release", crate=probe, features=feats, bin_name="floatprobe")
+            fw.write(vf.run_harness(pb, [name, vf.seed(), "unit" if tier == "quick" else "unit-thorough"]))
+    nrec, nev, badb = vf.validate_trace("TV_Rand", bk, jvms=2)
+    vf.log("[tv] unit circle / sphere under the libm / libm+mm / mm backends: %d samples judged by TV_Rand: %d rejected" % (nrec, len(badb)))
+    chk.cov["traces_validated_against_impl"] += nrec
+    chk.cov["evaluations"] += nev
+    for b in badb:
+        chk.violation(b["key"], {"sub": "floatprobe-unit", "record": b["record"]},
+                      what="observation %s rejected by TV_Rand: %s" % (b["key"], json.dumps(b["record"])[:300]))
     chk.cov["distinct_nontrivial"] = chk.cov["traces_validated_against_impl"]
     chk.cov["rule"] = ("TLC: order of the step matrix over GF(2) (T^(2^64)=T, T^((2^64-1)/p)#I for the 7 prime factors, "
                        "explicit inverse, negative control) + exhaustive orbit of a 16-bit analogue; real code: next_bits on "
@@ -64,3 +79,11 @@ def run(tier):
     chk.assumptions = ["the identity of the code's step with the specification's T rests on agreement on a basis plus "
                        "random states (the map is linear)", "norms judged at 1e-3"]
     return chk.finish()
+
+
+def replay(path):
+    obj = json.load(open(path))
+    if obj.get("sub") == "floatprobe-unit":
+        # the "case" is a feature build of the probe: re-run the whole quick check
+        return run("quick")
+    return vf.replay("C19", path)
